@@ -1,4 +1,5 @@
 import GateryModel.C05.LemmasInit
+import GateryModel.C05.Historical
 /-!
 # C05 — property theorems
 
@@ -16,58 +17,42 @@ program: types and widths fit, slices in bounds, every `ELSE…` has a preceding
 (every `ELSE` / `ELSEIF` / `ELSE IF` directly follows an `IF` / `ELSEIF` / `ELSE IF` at the same nesting level and every
 *executed* dynamic index is in range).
 
-**The full statement does not hold for the code as it exists**: `C05_sequential_fails` below. The destructor
-`~ConditionalScope` (ConditionalScope.cpp:93-111) decides "a nested scope closed inside this ELSE" by comparing node ports
-(`m_lastConditionOnEntry != m_lastCondition`); in the two-scope form `IF (a) … ELSE IF (a) … ELSE …` with the *same port* as
-condition that test is false although the inner IF did close, and every later branch of the chain gets the wrong condition.
-The model records exactly that event in the ghost flag `BState.clash`; the theorems marked `_partial` hold whenever the flag
-stayed down, i.e. for every program in which no `ELSE IF (c)` is written with a condition that is the very node port of the
-chain's previous condition — in particular (`C05_sequential_macro_form`) for all programs that use the `ELSEIF` macro.
-
-/- full statement (false, see `C05_sequential_fails`):
-theorem C05_sequential (ins : List Ty) (p : Prog) (B : BState) (ρ env : List Val)
-    (hb : build p (initState ins) = some B) (hρ : typedEnv ins ρ) (hr : run p ρ none = some env) : outputs ρ B = env -/
+History: until gatery commit ac19c14 the destructor `~ConditionalScope` compared node ports
+(`m_lastConditionOnEntry != m_lastCondition`) and the full statement was false (`IF (a) … ELSE IF (a) … ELSE …`);
+`C05_historical_portCompare_witness` keeps that fact for the old destructor (`buildOld`). The current code tests
+`s_nextId != m_id + 1` and the full statement below holds without side condition.
 -/
 namespace Gatery.C05.Props
 open Gatery.C05
 
-/-- For all programs (any nesting depth, any chain length, any selections), all input types and all typed input valuations:
-if the frontend model accepts the program without an `ELSE IF` port clash and the interpreter runs it, the built driver of
-*every* signal evaluates to the interpreter's final value of that signal. -/
-theorem C05_sequential_partial (ins : List Ty) (p : Prog) (B : BState) (ρ env : List Val)
-    (hb : build p (initState ins) = some B) (hc : B.clash = false)
-    (hρ : typedEnv ins ρ) (hr : run p ρ none = some env) :
+/-- For all programs (any nesting depth, any chain length in either ELSEIF form, any selections), all input types and all typed
+input valuations: if the frontend model accepts the program and the interpreter runs it, the built driver of *every* signal
+evaluates to the interpreter's final value of that signal. -/
+theorem C05_sequential (ins : List Ty) (p : Prog) (B : BState) (ρ env : List Val)
+    (hb : build p (initState ins) = some B) (hρ : typedEnv ins ρ) (hr : run p ρ none = some env) :
     outputs ρ B = env :=
-  outputs_eq_of_agree (build_top hb hc hρ hr).2
+  outputs_eq_of_agree (build_top hb hρ hr).2
 
 /-- Every read sees the value at its program point: after any program prefix `p`, an expression `e` evaluated through the
 frontend (`buildExpr`) yields a node whose value is what the interpreter computes for `e` in its environment at that point,
 with the static width. (Reads inside nested scopes are covered by the induction itself: `buildExpr_sound` is applied at every
 statement of an executed block.) -/
-theorem C05_reads_at_point_partial (ins : List Ty) (p : Prog) (B : BState) (ρ env : List Val) (e : Expr)
+theorem C05_reads_at_point (ins : List Ty) (p : Prog) (B : BState) (ρ env : List Val) (e : Expr)
     (ns : Nodes) (i : Nat) (t : Ty) (v : Val)
-    (hb : build p (initState ins) = some B) (hc : B.clash = false)
-    (hρ : typedEnv ins ρ) (hr : run p ρ none = some env)
+    (hb : build p (initState ins) = some B) (hρ : typedEnv ins ρ) (hr : run p ρ none = some env)
     (he : buildExpr B.sigs B.nodes e = some (ns, i, t)) (hv : evalE env e = some v) :
     valAt ρ ns i = v ∧ v.length = t.width :=
-  let ⟨w, a⟩ := build_top hb hc hρ hr
+  let ⟨w, a⟩ := build_top hb hρ hr
   buildExpr_sound e _ _ _ _ v he a w.sigs hv
 
-/-- The class "ELSEIF macro form only": no side condition on ports at all. -/
-theorem C05_sequential_macro_form (ins : List Ty) (p : Prog) (B : BState) (ρ env : List Val)
-    (hm : noElseIf2 p = true)
-    (hb : build p (initState ins) = some B) (hρ : typedEnv ins ρ) (hr : run p ρ none = some env) :
-    outputs ρ B = env :=
-  C05_sequential_partial ins p B ρ env hb (by rw [build_noElseIf2_clash p _ _ hm hb]; rfl) hρ hr
-
 /-- A block whose enclosing full condition evaluates to false changes no signal declared outside it (frame property used for
-every branch that is not taken; stated for arbitrary reachable frontend states). -/
+every branch that is not taken; stated for arbitrary well-formed frontend states). -/
 theorem C05_skipped_block_frame (ρ : List Val) (p : Prog) (B B' : BState) (top : Scope) (rest : List Scope)
     (hb : build p B = some B') (hw : WF B) (hs : B.scopes = top :: rest) (hd : valAt ρ B.nodes top.full = [false]) :
     Keeps ρ top.id B B' :=
   (build_dead p B B' top rest hb hw hs hd).2.2.1
 
-/-! ### the witness: `Bit x = '0'; IF (a) x = '1'; ELSE IF (a) x = '0'; ELSE x = '1';` -/
+/-! ### the former witness: `Bit x = '0'; IF (a) x = '1'; ELSE IF (a) x = '0'; ELSE x = '1';` -/
 
 /-- input 0 = `a`; signal 1 = `x` -/
 def witness : Prog :=
@@ -76,38 +61,14 @@ def witness : Prog :=
       (.elseIf2 (.read 0 []) (.assign 1 [] (.const .bit [false]) .done)
         (.elseS (.assign 1 [] (.const .bit [true]) .done) .done)))
 
-/-- for `a = 0` the sequential program ends with `x = 1` (the final ELSE runs); the built design yields `x = 0` -/
-theorem C05_twoScopeElseIf_witness :
-    (build witness (initState [.bit])).map (outputs [[false]]) = some [[false], [false]] ∧
-    run witness [[false]] none = some [[false], [true]] ∧
-    (build witness (initState [.bit])).map (·.clash) = some true := by
-  refine ⟨?_, by decide, by decide⟩
-  have h : (build witness (initState [.bit])).map (outputsL [[false]]) = some [[false], [false]] := by decide
-  rw [← h]
-  congr 1
-  funext B
-  exact outputs_eq_outputsL _ B
+/-- HISTORICAL (code before ac19c14, `buildOld` = port-comparing destructor): for `a = 0` the sequential program ends with
+`x = 1` (the final ELSE runs) while the design built by the old frontend yields `x = 0`. -/
+theorem C05_historical_portCompare_witness :
+    (buildOld witness (initState [.bit])).map (outputsL [[false]]) = some [[false], [false]] ∧
+    run witness [[false]] none = some [[false], [true]] := by decide
 
-/-- the same program text with the `ELSEIF` macro behaves sequentially (and is covered by `C05_sequential_macro_form`) -/
-def witnessMacro : Prog :=
-  .decl .bit (.const .bit [false])
-    (.ifS (.read 0 []) (.assign 1 [] (.const .bit [true]) .done)
-      (.elseifS (.read 0 []) (.assign 1 [] (.const .bit [false]) .done)
-        (.elseS (.assign 1 [] (.const .bit [true]) .done) .done)))
-
-/-- The full statement (without the no-clash premise) is false for the code as it exists. -/
-theorem C05_sequential_fails :
-    ¬ ∀ (ins : List Ty) (p : Prog) (B : BState) (ρ env : List Val),
-        build p (initState ins) = some B → typedEnv ins ρ → run p ρ none = some env → outputs ρ B = env := by
-  intro h
-  have hb : ∃ B, build witness (initState [.bit]) = some B ∧ outputs [[false]] B = [[false], [false]] := by
-    cases hB : build witness (initState [.bit]) with
-    | none => have := C05_twoScopeElseIf_witness.1; rw [hB] at this; cases this
-    | some B => have := C05_twoScopeElseIf_witness.1; rw [hB] at this; exact ⟨B, rfl, by simpa using this⟩
-  obtain ⟨B, h1, h2⟩ := hb
-  have := h [.bit] witness B [[false]] [[false], [true]] h1 (by decide) C05_twoScopeElseIf_witness.2.1
-  rw [h2] at this
-  cases this
+/-- the same program on the current code (instance of `C05_sequential`, evaluated) -/
+example : (build witness (initState [.bit])).map (outputsL [[false]]) = run witness [[false]] none := by decide
 
 /-! ### non-vacuity: the premises are satisfiable on non-trivial programs -/
 
@@ -132,16 +93,14 @@ def sample : Prog :=
 
 def sampleIns : List Ty := [.bit, .bit, .uint 4, .uint 2]
 
-example : (build sample (initState sampleIns)).map (·.clash) = some false := by decide
+example : (build sample (initState sampleIns)).isSome = true := by decide
 example : typedEnv sampleIns [[true], [true], [false, true, true, false], [true, false]] := by decide
 example : (run sample [[true], [true], [false, true, true, false], [true, false]] none).isSome = true := by decide
 example : (run sample [[false], [false], [false, true, true, false], [true, true]] none).isSome = true := by decide
 -- and the theorem's conclusion can be observed on it (through the kernel-evaluable twin of `outputs`)
 example : (build sample (initState sampleIns)).map (outputsL [[false], [false], [false, true, true, false], [true, true]]) =
     run sample [[false], [false], [false, true, true, false], [true, true]] none := by decide
-example : noElseIf2 witnessMacro = true ∧ (build witnessMacro (initState [.bit])).isSome = true ∧
-    (run witnessMacro [[false]] none).isSome = true := by decide
--- a skipped block exists: premises of `C05_skipped_block_frame` (checked by evaluation on the sample inside `build_dead`'s use)
-example : (build witness (initState [.bit])).isSome = true := by decide
+-- a two-scope ELSE IF on the same port as the preceding IF is accepted and runs
+example : (build witness (initState [.bit])).isSome = true ∧ (run witness [[true]] none).isSome = true := by decide
 
 end Gatery.C05.Props
